@@ -598,6 +598,126 @@ func TestC12_algorithm_inputs_unchanged(t *testing.T) {
 }
 
 // ---------------------------------------------------------------------------------------------
+// (c') a work-space object (InSitu) that the caller keeps between calls must not turn an earlier
+// read-only input into work space: after every call all inputs handed in so far are unchanged
+
+var insituAlgos = []string{"qrAlgorithm", "eigensystem", "hessenbergReduction", "householderBidiagonalization", "householderTridiagonalization",
+	"cholesky", "determinant", "matrixInverse", "svd", "backSubstitution"}
+
+func TestC12_insitu_reuse_inputs_unchanged(t *testing.T) {
+	rapid.Check(t, func(t *rapid.T) {
+		algo := insituAlgos[rapid.IntRange(0, len(insituAlgos)-1).Draw(t, "algo")]
+		st := gen.DrawType(t, "elem", []gen.SType{gen.TFloat64, gen.TReal64})
+		n := rapid.IntRange(1, 4).Draw(t, "n")
+		calls := rapid.IntRange(2, 4).Draw(t, "calls")
+		c := obs.Begin("insitu_reuse_inputs_unchanged", "%s %s n=%d calls=%d", algo, st, n, calls)
+		c.Classf("algo=%s", algo)
+		c.NT(n >= 2)
+		eps := qrAlgorithm.Epsilon{Value: 1.11e-16}
+		var ins interface{}
+		switch algo {
+		case "qrAlgorithm":
+			ins = &qrAlgorithm.InSitu{InitializeH: rapid.Bool().Draw(t, "InitializeH")}
+		case "eigensystem":
+			ins = &eigensystem.InSitu{QrAlgorithm: qrAlgorithm.InSitu{InitializeH: rapid.Bool().Draw(t, "InitializeH")}}
+		case "hessenbergReduction":
+			ins = &hessenbergReduction.InSitu{}
+		case "householderBidiagonalization":
+			ins = &householderBidiagonalization.InSitu{}
+		case "householderTridiagonalization":
+			ins = &householderTridiagonalization.InSitu{}
+		case "cholesky":
+			ins = &cholesky.InSitu{}
+		case "determinant":
+			ins = &determinant.InSitu{}
+		case "matrixInverse":
+			ins = &matrixInverse.InSitu{}
+		case "svd":
+			ins = &svd.InSitu{}
+		case "backSubstitution":
+			ins = &backSubstitution.InSitu{}
+		}
+		type kept struct {
+			m      Matrix
+			before string
+			desc   string
+		}
+		var inputs []kept
+		bvec := gen.ToDenseVec(st, make([]float64, n))
+		for i := 0; i < n; i++ {
+			bvec.At(i).SetFloat64(float64(i) + 0.5)
+		}
+		beforeB := canon(bvec)
+		for k := 0; k < calls; k++ {
+			opt := rapid.Bool().Draw(t, fmt.Sprintf("opt%d", k))
+			fam := "general"
+			switch {
+			case algo == "cholesky" || algo == "householderTridiagonalization":
+				fam = "spd"
+			case algo == "backSubstitution":
+				fam = "upper-triangular"
+			case opt && (algo == "qrAlgorithm" || algo == "eigensystem" || algo == "determinant" || algo == "matrixInverse"):
+				fam = "spd"
+			}
+			ls := gen.DrawLinSys(t, fmt.Sprintf("A%d", k), n, fam)
+			am := gen.ToDense(st, ls.A)
+			if st.IsReal() && rapid.Bool().Draw(t, fmt.Sprintf("activate%d", k)) {
+				Variables(2, am.(MagicMatrix).MagicAt(0, 0))
+				c.Class("input carries derivatives")
+			}
+			inputs = append(inputs, kept{am, canon(am), fmt.Sprintf("call %d (option=%v) A=%v", k, opt, ls.A)})
+			if k > 0 {
+				c.Classf("option sequence %v", opt)
+			}
+			p, to := guarded(func() {
+				switch algo {
+				case "qrAlgorithm":
+					qrAlgorithm.Run(am, qrAlgorithm.ComputeU{Value: rapid.Bool().Draw(t, "computeU")}, qrAlgorithm.Symmetric{Value: opt}, eps, ins)
+				case "eigensystem":
+					eigensystem.Run(am, eigensystem.Symmetric{Value: opt}, eps, ins)
+				case "hessenbergReduction":
+					hessenbergReduction.Run(am, hessenbergReduction.ComputeU{Value: opt}, ins)
+				case "householderBidiagonalization":
+					householderBidiagonalization.Run(am, householderBidiagonalization.ComputeU{Value: opt}, householderBidiagonalization.ComputeV{Value: opt}, ins)
+				case "householderTridiagonalization":
+					householderTridiagonalization.Run(am, householderTridiagonalization.ComputeU{Value: opt}, ins)
+				case "cholesky":
+					cholesky.Run(am, cholesky.LDL{Value: opt}, ins)
+				case "determinant":
+					determinant.Run(am, determinant.PositiveDefinite{Value: opt}, ins)
+				case "matrixInverse":
+					matrixInverse.Run(am, matrixInverse.PositiveDefinite{Value: opt}, ins)
+				case "svd":
+					svd.Run(am, svd.ComputeU{Value: opt}, svd.ComputeV{Value: opt}, ins)
+				case "backSubstitution":
+					backSubstitution.Run(am, bvec, ins)
+				}
+			})
+			if to {
+				c.Class("inconclusive: watchdog")
+				c.End()
+				return
+			}
+			if p != "" {
+				c.Class("panicked")
+			}
+			for j, in := range inputs {
+				if got := canon(in.m); got != in.before {
+					t.Fatalf("%s: after call %d with the same InSitu object the input of %s changed from %s to %s", c.Desc(), k, in.desc, in.before, got)
+				}
+				if j < k {
+					c.Class("earlier input checked after a later call")
+				}
+			}
+			if canon(bvec) != beforeB {
+				t.Fatalf("%s: the input vector changed from %s to %s", c.Desc(), beforeB, canon(bvec))
+			}
+		}
+		c.End()
+	})
+}
+
+// ---------------------------------------------------------------------------------------------
 // (d) optimizers do not move the starting point they were given
 
 func TestC12_optimizer_start_unchanged(t *testing.T) {
